@@ -23,8 +23,8 @@ CLAIMED = {
  "C06": ("End-of-block staking kernels only: rewardsToPool, distributeRewards and the validator pass slashingAndRecoveringYouV5 (state and order of emitted logs) give the same result under every Go map / sync.Map iteration order; builder and importing node execute transactions with the same beneficiary and act on several confirmed evidences in the same order (self-composition on a Copy, executor forks over all orders); builder slashing vs importing node's replaySlashing of the written slash data for an arbitrary double-sign evidence; the process-wide code-size cache of the shared state database never changes an answer (every history of requests, arbitrary LRU eviction).",
          "Trusted: gosym, z3, StateDB.Copy (C10). NOT covered: whole-block determinism through EVM, RLP, tries, receipts, the pastTries cache. One open known finding (zero-penalty expulsion not replayed).",
          "solver-based symbolic execution of go/ssa with map-order permutation and self-composition"),
- "C07": ("One inductive step per end-of-block value-moving kernel (blockRewards+rewardsToPool, distributeRewards, settleValidatorRewards, processWithdrawQueue) with a ghost sum over balances, reward accounts, role pools, residue, pending withdrawals and the block's fees; penalties are in C05, fee charging in C17 (whose staking-converter contract harness - reported gas = consumed gas - also runs here); the four value-moving take-effect handlers of staking actions conserve stake + withdraw queue + balances, and their submission side detains exactly the submitted amount.",
-         "Trusted: gosym, z3 (non-linear Int, standalone fallback); online validators hold >= 1 stake unit; validator creation/update/status handlers and EVM transfers outside. One open known finding (forced settle loses rewards).",
+ "C07": ("One inductive step per end-of-block value-moving kernel (blockRewards+rewardsToPool, distributeRewards, settleValidatorRewards, processWithdrawQueue) with a ghost sum over balances, reward accounts, role pools, residue, pending withdrawals and the block's fees; penalties are in C05, fee charging in C17 (whose staking-converter contract harness - reported gas = consumed gas - also runs here); the four value-moving take-effect handlers of staking actions conserve stake + withdraw queue + balances, and their submission side detains exactly the submitted amount; validator creation (handleCreate then teCreate) debits exactly the deposit, which becomes exactly the new validator's own tokens, duplicates refused.",
+         "Trusted: gosym, z3 (non-linear Int, standalone fallback); online validators hold >= 1 stake unit; validator update/status/settle handlers and EVM transfers outside. One open known finding (forced settle loses rewards).",
          "solver-based symbolic execution of go/ssa (SMT Int mode, non-linear), inductive conservation step"),
  "C08": ("Inductive step on the real StateDB validator/delegation code from an arbitrary consistent two-validator state (symbolic role/status/token, a delegator with up to two delegations): statistics = recomputation, index = live set, per-validator sums and delegator links after every mutation and after its revert (also after every value-moving staking action taking effect).",
          "Trusted: gosym, z3; fake Database/Trie behind the repo's own interfaces; PubToAddress/RLP of the delegator list idealised; commit+reload outside. One open known finding (RemoveValidator keeps the index entry).",
